@@ -206,8 +206,8 @@ Theorems(m, t, y, P, dv) ==
 
 (************************** case construction ******************************)
 MaxAbsY(y) == CHOOSE v \in {AbsI(y[i]) : i \in 1..Len(y)} : \A i \in 1..Len(y) : AbsI(y[i]) <= v
-Case(cc, t, y, P) ==
-  LET q == Queries(cc.m, t, y, P) IN
+\* q: the query records (Queries, possibly extended by a history module)
+CaseQ(cc, t, y, P, q) ==
   [kind |-> "interp", m |-> cc.m, n |-> Len(t), dv |-> cc.dv, x |-> t, y |-> y,
    dydx |-> IF cc.m = "pwcubic" THEN GivenDeriv(Len(t), cc.dv) ELSE <<>>,
    \* rounding allowance per query: tolu * 2^-52 * (mv resp. md + ymax)
@@ -215,6 +215,7 @@ Case(cc, t, y, P) ==
    qx |-> Force([i \in 1..Len(q) |-> q[i].x]), qv |-> Force([i \in 1..Len(q) |-> q[i].v]),
    qd |-> Force([i \in 1..Len(q) |-> q[i].d]), qmv |-> Force([i \in 1..Len(q) |-> q[i].mv]),
    qmd |-> Force([i \in 1..Len(q) |-> q[i].md]), qk |-> Force([i \in 1..Len(q) |-> q[i].knot])]
+Case(cc, t, y, P) == CaseQ(cc, t, y, P, Queries(cc.m, t, y, P))
 
 (****************************** state space ********************************)
 MinKnots(m) == IF m = "notaknot" THEN 4 ELSE 2
